@@ -244,3 +244,19 @@ func ReturnDepositOut(to common.Uint168, value int64, d common.Uint256) *common2
 func ReturnDepositTx(nonce byte, ins []*common2.Input, outs ...*common2.Output) interfaces.Transaction {
 	return Typed(common2.ReturnSideChainDepositCoin, 0, &payload.ReturnSideChainDepositCoin{}, nonce, ins, outs)
 }
+
+// WithPayloadVersion returns tx after setting its payload version (legacy variants: the payload
+// data fields that the version does not serialise simply stay unused).
+func WithPayloadVersion(tx interfaces.Transaction, v byte) interfaces.Transaction {
+	tx.SetPayloadVersion(v)
+	return tx
+}
+
+// FanOut builds a transfer with n equal outputs to one address.
+func FanOut(nonce byte, ins []*common2.Input, to common.Uint168, n int, value int64) interfaces.Transaction {
+	outs := make([]*common2.Output, 0, n)
+	for i := 0; i < n; i++ {
+		outs = append(outs, Out(to, value))
+	}
+	return Transfer(nonce, ins, outs)
+}
